@@ -370,12 +370,21 @@ impl<'a, const D: usize> Rdp<'a, D> {
             return;
         }
 
-        let sp = SurfacePoint::new_normalize(self.points[i0], self.points[i1] - self.points[i0]);
+        // A zero-length chord (the seam of a closed curve) has no direction: measure to the point
+        let chord = self.points[i1] - self.points[i0];
+        let sp = if chord.norm() > 0.0 {
+            Some(SurfacePoint::new_normalize(self.points[i0], chord))
+        } else {
+            None
+        };
         let mut max_dist = 0.0;
         let mut max_i = 0;
 
         for i in i0 + 1..i1 {
-            let dist = (sp.projection(&self.points[i]) - self.points[i]).norm();
+            let dist = match &sp {
+                Some(sp) => (sp.projection(&self.points[i]) - self.points[i]).norm(),
+                None => (self.points[i] - self.points[i0]).norm(),
+            };
             if dist > max_dist {
                 max_dist = dist;
                 max_i = i;
